@@ -42,6 +42,9 @@ fn client_received_a_message(
     log_message_received(Who::Client, &msg);
     match msg {
         Message::EntitySpawn { id } => {
+            if track.despawned_locally.contains(&id) {
+                return;
+            }
             if let Some(e_id) = track.uuid_to_entity.get(&id) {
                 if cmd.get_entity(*e_id).is_some() {
                     return;
